@@ -100,6 +100,7 @@ const OP_SETUP: u64 = 21;
 const OP_JOINING: u64 = 22;
 const OP_ARCHIVE: u64 = 23;
 const OP_KERNEL_HEIGHT: u64 = 24;
+const OP_UTXO_SCAN: u64 = 25;
 
 fn tick(slot: usize, op: u64) {
 	CUR_OP[slot].store(op, Ordering::SeqCst);
@@ -815,6 +816,49 @@ struct RState {
 	validate_fast_left: u32,
 	compact_left: u32,
 	st: Stats,
+	/// commitment -> range proof bytes of every output of the world's blocks (built on first use)
+	proofs: Option<HashMap<Vec<u8>, Vec<u8>>>,
+}
+
+/// The call behind the node's get_unspent_outputs API (wallet restore): outputs and their range proofs are read from two
+/// MMRs. Whatever happens meanwhile, the call does not fail (every committed state has as many proofs as outputs) and
+/// every output comes with the proof that was made for it.
+fn op_utxo_scan(ctx: &Ctx, rs: &mut RState) {
+	if rs.proofs.is_none() {
+		let mut m = HashMap::new();
+		for gb in ctx.w.all.iter() {
+			for o in gb.block.outputs() {
+				m.insert(o.commitment().0.to_vec(), o.proof_bytes().to_vec());
+			}
+		}
+		rs.proofs = Some(m);
+	}
+	inc(&mut rs.st, "op.unspent_outputs_by_pmmr_index");
+	match catch(|| ctx.chain.unspent_outputs_by_pmmr_index(1, 100_000, None)) {
+		Err(pn) => ctx.panic("unspent_outputs_by_pmmr_index", &pn),
+		Ok(Err(e)) => ctx.viol(
+			&format!("utxo_scan_failed;{}", short_err(&e)),
+			format!("unspent_outputs_by_pmmr_index failed while blocks were being processed: {:?} (no committed state has other than one proof per output)", e),
+		),
+		Ok(Ok((_, _, outs))) => {
+			let m = rs.proofs.as_ref().unwrap();
+			let mut known = 0u64;
+			for o in &outs {
+				if let Some(p) = m.get(&o.commitment().0.to_vec()) {
+					known += 1;
+					if p.as_slice() != o.proof_bytes() {
+						ctx.viol(
+							"utxo_scan_pairs_an_output_with_the_proof_of_another",
+							format!("unspent_outputs_by_pmmr_index returned output {:?} with a range proof that is not the one made for it", o.commitment()),
+						);
+						return;
+					}
+				}
+			}
+			inc(&mut rs.st, "unspent_outputs_by_pmmr_index.ok");
+			*rs.st.entry("unspent_outputs_by_pmmr_index.outputs_whose_proof_was_compared".into()).or_insert(0) += known;
+		}
+	}
 }
 
 fn op_head_block(ctx: &Ctx, rs: &mut RState) {
@@ -1442,6 +1486,7 @@ fn reader(ctx: &Ctx, slot: usize, role: Role, seed: u64) {
 			_ => 0,
 		},
 		st: Stats::new(),
+		proofs: None,
 	};
 	tick(slot, OP_BARRIER);
 	ctx.barrier.wait();
@@ -1480,9 +1525,12 @@ fn reader(ctx: &Ctx, slot: usize, role: Role, seed: u64) {
 				} else if x < 82 {
 					tick(slot, OP_VALIDATE_INPUTS);
 					op_validate_inputs(ctx, &mut rs, &mut p);
-				} else if x < 92 {
+				} else if x < 90 {
 					tick(slot, OP_KERNEL_HEIGHT);
 					op_kernel_height(ctx, &mut rs, &mut p);
+				} else if x < 96 {
+					tick(slot, OP_UTXO_SCAN);
+					op_utxo_scan(ctx, &mut rs);
 				} else {
 					tick(slot, OP_HEADER_FOR_OUTPUT);
 					op_header_for_output(ctx, &mut rs, &mut p);
@@ -2693,6 +2741,8 @@ fn main() {
 	req("block.orphan", 500, 5000);
 	req("concurrent_duplicate_deliveries", 2000, 20000);
 	req("locked_views_consistent", 2500, 25000);
+	req("unspent_outputs_by_pmmr_index.ok", 120, 1200);
+	req("unspent_outputs_by_pmmr_index.outputs_whose_proof_was_compared", 2000, 20000);
 	req("locked_views_of_intermediate_heads", 1000, 10000);
 	req("head_changes_observed_by_readers", 800, 8000);
 	req("template_roots_checked", 3000, 30000);
